@@ -81,7 +81,16 @@ def factory_sites(path):
                     handed = vals[0]
                     alias = {k: 'CLS' for k in alias}
             import copy
-            setup = [src(Renamer({handed: 'CLS'} if handed else {}).visit(copy.deepcopy(st))) for st in fn.body
+
+            def norm(st):
+                st = Renamer({handed: 'CLS'} if handed else {}).visit(copy.deepcopy(st))
+                if isinstance(st, ast.ClassDef):
+                    # docstrings and `pass` in the class body say nothing
+                    body = [b for b in st.body if not isinstance(b, ast.Pass)
+                            and not (isinstance(b, ast.Expr) and isinstance(b.value, ast.Constant))]
+                    st.body = body or [ast.Pass()]
+                return src(st)
+            setup = [norm(st) for st in fn.body
                      if not (isinstance(st, ast.Expr) and isinstance(st.value, ast.Constant))
                      and not (isinstance(st, ast.ClassDef) and st.name == cls.name)
                      and not isinstance(st, ast.Return)]
